@@ -560,6 +560,7 @@ class Ctx:
         self.trace_functions = trace_functions
         self.aborted = None
         self.scale = []                             # magnitudes the outputs were computed from
+        self.cex_hints = []                         # soft constraints for counterexample search
 
     # ----------------------------------------------------------------- variables
     def _declare(self, name, kind):
@@ -948,6 +949,8 @@ class Ctx:
             merged.update(m)
             ob["status"] = "violated"
             ob["model"] = self._export_model_lossy(merged)
+            if self.pows or self.logs:
+                ob["uf"] = True         # sat under a fictitious pow/log: replay arbitrates
             if info is not None:
                 save, self.model = self.model, merged
                 self._model_dirty = True
@@ -1004,9 +1007,17 @@ class Ctx:
         be = b.e if isinstance(b, SymReal) else rv(b)
         d = ae - be
         delta = rv(1e-4) * S
+        hints = [h for h in self.cex_hints]
+        for h in hints:
+            vs |= h.vs
         conj, names = self._slice(vs)
-        r, m = self._solve(conj, [z3.Or(d >= delta, -d >= delta)], names, True,
-                           timeout_ms=self.timeout_ms)
+        r = "unknown"
+        if hints:
+            r, m = self._solve(conj, [z3.Or(d >= delta, -d >= delta)] + [h.e for h in hints], names, True,
+                               timeout_ms=self.timeout_ms)
+        if r != "sat":
+            r, m = self._solve(conj, [z3.Or(d >= delta, -d >= delta)], names, True,
+                               timeout_ms=self.timeout_ms)
         if r == "sat":
             merged = dict(self.model)
             merged.update(m)
@@ -1031,6 +1042,12 @@ class Ctx:
         computed: float comparisons in concrete mode are relative to the largest of them
         (cancellation), and refined counterexamples violate by a margin relative to them."""
         self.scale.extend(xs)
+
+    def cex_hint(self, cond):
+        """Soft preference used only when a counterexample is being refined (e.g. 'the
+        interval is at least a month long') so that its float replay is meaningful."""
+        if isinstance(cond, SymBool):
+            self.cex_hints.append(cond)
 
     def out_of_scope(self, why):
         raise OutOfScope(why)
